@@ -372,8 +372,10 @@ def _build(plan, seq):
                     if not peers or len(peers) != 1:
                         raise RuntimeError("C11 harness: connected interface has no single service-side peer")
                     peers[0].set_property("labels", Labels(local_name=p["label"]))
+    # the model as a user would hand it over before ever validating it (the collector validates what it rebuilds)
+    early = t.serialize()
     t.validate()
-    return t
+    return t, early
 
 
 def _norm_attrs(az):
@@ -512,12 +514,17 @@ def run_case(case):
         return [plan["nodes"][k]["name"] if kd == "n" else plan["facs"][k]["name"] if kd == "f"
                 else plan["svcs"][k]["name"] for kd, k in seq]
 
+    early_used = [False]
     results = []          # per order: dict(topo=attrs|None, asm=..., ltopo=..., lasm=...)
     tally_failed = set()  # attributes / log fields whose tally failed in some order (root cause reported there)
     for oi, seq in enumerate(seqs):
         try:
-            t = _build(plan, seq)
+            t, early = _build(plan, seq)
             serial = t.serialize()
+            if oi == 1 or len(seqs) == 1:
+                # clause 3 from a model serialised BEFORE validation (sites of services not yet inferred in it)
+                serial = early
+                early_used[0] = True
         except Exception as e:   # precondition of the property (a valid slice exists) - harness/domain error
             raise RuntimeError(f"C11 harness: could not build/serialise the slice in order {names(seq)}: "
                                f"{type(e).__name__}: {e}; case={json.dumps(case, sort_keys=True)}") from e
@@ -685,6 +692,8 @@ def run_case(case):
     if distinct_seqs >= 3:
         labels.append("orders-distinct>=3")
     labels.append(f"services={min(len(svcs), 5)}")
+    if early_used[0]:
+        labels.append("asm-from-model-serialised-before-validation")
     nt = bool(len(node_sites) >= 2 and distinct_seqs >= 2 and (mixed or ext or plan["facs"]))
     return {"v": v, "nt": nt, "labels": labels}
 
